@@ -170,6 +170,8 @@ Ltac via H := intros; unfold P in *; eapply keeps_trans; [eassumption|]; eapply 
 
 Lemma F_fail : forall s e, P s -> P (fail s e). Proof. via keeps_fail. Qed.
 Lemma F_emit : forall s e, obs_event e -> P s -> P (emit s e). Proof. intros; unfold P in *; eapply keeps_trans; [eassumption|]; apply keeps_same; reflexivity. Qed.
+Lemma F_callback : forall s a kind r hold sw run, P s -> P (emit s (EvCallback a kind r hold sw run)).
+Proof. intros; unfold P in *; eapply keeps_trans; [eassumption|]; apply keeps_same; reflexivity. Qed.
 Lemma F_boundary : forall s e, boundary_event e -> P s -> P (flush (write s e)).
 Proof. intros; unfold P in *; eapply keeps_trans; [eassumption|]; apply keeps_same; reflexivity. Qed.
 Lemma F_accept_order : forall s mkid x ag mk buy p v ttlv m' rc tag,
@@ -210,7 +212,7 @@ Proof. apply (step_end_pres (keeps s) (F_emit s) (F_halt_before s) (F_shock s)).
 
 Lemma keeps_update_markets s : keeps s (update_markets s).
 Proof.
-  apply (update_markets_pres (keeps s) (F_fail s) (F_emit s) (F_accept_order s) (F_accept_cancel s) (F_round s) (F_fills s)
+  apply (update_markets_pres (keeps s) (F_fail s) (F_emit s) (F_callback s) (F_accept_order s) (F_accept_cancel s) (F_round s) (F_fills s)
            (F_pop_perm s) (F_pop_draw s) (F_consult s) (F_spent s) (F_halt_after s)).
   apply keeps_refl.
 Qed.
